@@ -97,8 +97,10 @@ def prefixes(tier):
 
 SHAPES = [
     ('LL-2-2', L(L(I(), I(2))), L(L(I(2), I()))),
+    ('LiL', L(I(), L(I(), I(2))), L(I(), L(I(2), I()))),       # the last matrix cell of the outer list edit is itself a list edit
     ('LL-11-11', L(L(I(2)), L(I())), L(L(I()), L(I(2)))),
     ('LD', L(D(I()), I()), L(D(I(2)), I(2))),
+    ('DL2c', ('dict', [('p', L(I(), I(2))), ('q', L(I()))]), ('dict', [('r', L(I(2))), ('s', L(I(), I()))])),   # concrete, unshared keys
     ('DL2', D(L(I(), I(2)), L(I())), D(L(I(2)), L(I(), I()))),
     ('DD', D(D(I()), I(2)), D(D(I(2)), D(I()))),
     ('D22', D(I(), I(2)), D(I(2), I())),
@@ -108,21 +110,27 @@ SHAPES = [
 
 def jobs(tier, seed):
     out = []
-    shapes = SHAPES if tier != 'quick' else [SHAPES[0], SHAPES[2], SHAPES[3]]
+    shapes = SHAPES if tier != 'quick' else [SHAPES[1], SHAPES[3], SHAPES[4]]      # LiL, LD, DL2c
     for name, A, B_ in shapes:
         for quiet in (False, True):
+            if tier == 'quick' and quiet and not name.startswith('Li'):
+                continue         # the quiet flag only changes control flow inside EditDistance.tighten_bounds
             for st in ('auto',) if tier == 'quick' else ('auto', 'none'):
                 for pre in prefixes(tier):
-                    if tier == 'quick' and quiet and len(pre) == 3:
+                    if tier == 'quick' and len(pre) == 3 and (quiet or not name.startswith('Li')):
                         continue
                     out.append(dict(fam=name, A=A, B=B_, dict=st, list='on', quiet=quiet, weight=len(pre) + 3, alpha=3,
                                     extra=dict(prefix=pre, nested=None)))
                 if tier == 'quick' and quiet:
                     continue
                 for nested in (0, 1):
-                    for pre in [p for p in prefixes('quick') if 1 <= len(p) <= (2 if tier == 'quick' else 3)]:
+                    for pre in [p for p in prefixes('quick') if 1 <= len(p) <= (1 if tier == 'quick' else 3)]:
                         out.append(dict(fam=name, A=A, B=B_, dict=st, list='on', quiet=quiet, weight=len(pre) + 4, alpha=3,
                                         extra=dict(prefix=pre, nested=nested)))
+                    if tier == 'quick':
+                        for pre in (['tighten', 'tighten'], ['edits', 'tighten'], ['tighten', 'edits'], ['bounds', 'tighten']):
+                            out.append(dict(fam=name, A=A, B=B_, dict=st, list='on', quiet=quiet, weight=6, alpha=3,
+                                            extra=dict(prefix=pre, nested=nested)))
     return out
 
 
@@ -137,9 +145,10 @@ REGIONS = dict(mset_duplicates=lambda w, f: th.has_duplicate_members(w))
 
 def bounds_text(tier):
     return ("3 (thorough 7) nested document shapes (list of lists, list of mappings, mapping of lists, mapping of mappings) with all "
-            "leaf values symbolic x quiet on/off x every operation prefix of length <= 2 over the 6 public operations, every length-3 "
-            "prefix over {bounds, tighten_bounds, edits, has_non_zero_cost} (thorough: all length-3, active length-4), 4-6 consecutive "
-            "tighten_bounds; applied to the top-level edit and to the first / second nested edit; then the TreeNode.diff loop")
+            "leaf values symbolic x every operation prefix of length <= 2 over the 6 public operations (quick: length-3 prefixes over "
+            "{bounds, tighten_bounds, edits, has_non_zero_cost} and quiet on/off only on the list-of-lists shape; thorough: all length-3, "
+            "active length-4, quiet on/off everywhere), 4-6 consecutive tighten_bounds; applied to the top-level edit and to the first / "
+            "second nested edit; then the TreeNode.diff loop")
 
 
 def pre(tier, seed):
